@@ -22,7 +22,7 @@ type Resolver interface {
 // New creates a new Resolver with the given definitions.
 // If multiple definitions have the same Kind, the first one wins.
 func New(defs ...errdef.Definition) *StrictResolver {
-	defs = slices.CompactFunc(defs, func(a, b errdef.Definition) bool {
+	defs = slices.CompactFunc(slices.Clone(defs), func(a, b errdef.Definition) bool {
 		return a == b
 	})
 
